@@ -330,12 +330,18 @@ def main(prop, tier, seed, replay_path=None):
     for i, (c, h) in enumerate(sessions):
         init, lines = run_session(c, h, M)
         traces.append({'id': i + 1, 'init': init, 'lines': lines, 'chart': c, 'hist': h})
-    d2 = tlc.workdir('C16_model_tr')
-    path = os.path.join(d2, 'traces.json')
-    json.dump([{'id': t['id'], 'init': t['init'], 'lines': t['lines']} for t in traces if t['lines']], open(path, 'w'))
-    tlc.write_mc(d2, 'ModelTrace', {'M': M}, spec='TSpec', invariants=['Report'])
-    tr = tlc.run(d2, env={'TRACE_FILE': path}, timeout=3000)
-    reports = {j['id']: j for j in tr['json'] if isinstance(j, dict) and 'id' in j}
+    # the recorded sessions are decided by TLC in batches (one huge trace file makes TLC's JSON values exceed its heap)
+    tolook = [{'id': t['id'], 'init': t['init'], 'lines': t['lines']} for t in traces if t['lines']]
+    reports, tr = {}, {'error': None, 'cmd': '', 'json': []}
+    for bi in range(0, max(1, len(tolook)), 30000):
+        d2 = tlc.workdir('C16_model_tr' if bi == 0 else 'C16_model_tr%d' % (bi // 30000))
+        path = os.path.join(d2, 'traces.json')
+        json.dump(tolook[bi:bi + 30000], open(path, 'w'))
+        tlc.write_mc(d2, 'ModelTrace', {'M': M}, spec='TSpec', invariants=['Report'])
+        tr = tlc.run(d2, env={'TRACE_FILE': path}, timeout=3000)
+        reports.update({j['id']: j for j in tr['json'] if isinstance(j, dict) and 'id' in j})
+        if tr['error']:
+            break
     want = [t['id'] for t in traces if t['lines']]
     if tr['error'] or any(i not in reports for i in want):
         print('MACHINERY-FAILURE property=C16: trace check failed or incomplete\n' + str(tr['error']))
